@@ -138,3 +138,10 @@ func fmtStateDiff(g, w *stateView) string {
 	}
 	return s
 }
+
+// safely runs f and returns the value of a panic raised by the code under test.
+func safely(f func()) (p any) {
+	defer func() { p = recover() }()
+	f()
+	return nil
+}
